@@ -2,6 +2,7 @@ package main
 
 import (
 	"fmt"
+	"sort"
 	"go/constant"
 	"go/token"
 	"go/types"
@@ -270,10 +271,41 @@ func (x *Exec) concretize(t *Term, lo, hi int, signed bool) (int, bool) {
 	}
 	taken := x.choose(func() []int {
 		var o []int
-		for i := 0; i < n; i++ {
-			if x.feasible(eqc(i)) {
+		if n > 0 {
+			// enumerate the feasible values in [lo,hi] by repeated model queries (one query per feasible value)
+			inRange := x.ctx.Not(outside)
+			excl := []*Term{inRange}
+			for len(o) <= n {
+				conds := append(append([]*Term{}, x.pc...), excl...)
+				res, val := x.solver.CheckValue(conds, t)
+				if res == Unknown {
+					x.res.Unknowns++
+					// fall back to trying every value
+					o = nil
+					for i := 0; i < n; i++ {
+						if x.feasible(eqc(i)) {
+							o = append(o, i)
+						}
+					}
+					break
+				}
+				if res == Unsat {
+					break
+				}
+				var v int64
+				if signed {
+					v = x.ctx.BigBV(val, t.W).BigSVal().Int64()
+				} else {
+					v = val.Int64()
+				}
+				i := int(v) - lo
+				if i < 0 || i >= n {
+					break // cannot happen: inRange is asserted
+				}
 				o = append(o, i)
+				excl = append(excl, x.ctx.Not(eqc(i)))
 			}
+			sort.Ints(o)
 		}
 		if x.feasible(outside) {
 			o = append(o, n)
